@@ -323,7 +323,8 @@ theorem reentryStep_spec (entry : Nat) (b : B) (e : Nat) :
 
 /-- what leaving the section `(c0, i)` does to the pending facts -/
 structure ExitOk (c0 : Bool) (i : Nat) (b b' : B) : Prop where
-  pp : ∀ p, PP b p → p ∈ b'.edges ∨ PP b' p
+  ppe : ∀ p, PPat b c0 i p → p ∈ b'.edges
+  ppk : ∀ c t p, PPat b c t p → ¬(c = c0 ∧ t = i) → PPat b' c t p
   pj : ∀ c t G x, PJ c b t G x → (c = c0 ∧ t = i) ∨ PJ c b' t G x
   edges : ∀ p, p ∈ b.edges → p ∈ b'.edges
   finallySub : b'.finallySub = b.finallySub
@@ -348,15 +349,14 @@ theorem exitOk_of (c0 : Bool) (i : Nat) (ex : List Nat) (b bf b' : B) (hex : age
   have hf : ∀ c t, ¬(c = c0 ∧ t = i) → ∀ l j, aget t (dictOf c b) = some l → j ∈ l →
       aget j b'.finallySections = aget j b.finallySections := by
     intro c t hct l j h1 h2; rw [hfs, J.fsec j (hne c t hct l j h1 h2)]
-  refine ⟨?_, ?_, S.edges, S.finallySub, S.pendingFinally, S.errors, S.raises, hldj⟩
+  refine ⟨?_, ?_, ?_, S.edges, S.finallySub, S.pendingFinally, S.errors, S.raises, hldj⟩
   · intro p hp
-    obtain ⟨c, t, hp⟩ := hp
-    by_cases hct : c = c0 ∧ t = i
-    · obtain ⟨l, j, gs, h1, h2, h3, h4⟩ := hp
-      rw [hct.1, hct.2, hex] at h1
-      cases h1
-      exact Or.inl (S'.edges p (hdis j h2 gs h3 p h4))
-    · exact Or.inr ⟨c, t, S.w.ppat hp (hd c t hct) (hf c t hct)⟩
+    obtain ⟨l, j, gs, h1, h2, h3, h4⟩ := hp
+    rw [hex] at h1
+    cases h1
+    exact S'.edges p (hdis j h2 gs h3 p h4)
+  · intro c t p hp hct
+    exact S.w.ppat hp (hd c t hct) (hf c t hct)
   · intro c t G x hp
     by_cases hct : c = c0 ∧ t = i
     · exact Or.inl hct
@@ -438,11 +438,9 @@ theorem Pend.exit {σ : List Scope} {T : Nat} {curP : List Nat} {b b' : B} {R : 
     · exact h'
   refine ⟨?_, ?_, ?_, ?_, ?_, fun x hx => by rw [h.errors]; exact hp.exempt x hx⟩
   · intro p hpp
-    rcases hp.req p hpp with h1 | h1 | ⟨h1, h2⟩
+    rcases hp.req p hpp with h1 | ⟨c, t, htg, h1⟩ | ⟨h1, h2⟩
     · exact Or.inl (h.edges p h1)
-    · rcases h.pp p h1 with h2 | h2
-      · exact Or.inl h2
-      · exact Or.inr (Or.inl h2)
+    · exact Or.inr (Or.inl ⟨c, t, htg, h.ppk c t p h1 (fun e => hσ (e.2 ▸ tgt_key htg))⟩)
     · exact Or.inr (Or.inr ⟨h1, startedAt_of_same h.finallySub h.pendingFinally h2⟩)
   · intro x hx
     obtain ⟨L, hL, h1⟩ := hp.brk x hx
